@@ -214,9 +214,14 @@ func runR131(c *Ctx) {
 		if bo.Op == token.EQL && (isNumber(bo.X) || isNumber(bo.Y)) {
 			return true, ""
 		}
-		// size budget (tree read only)
-		if isTreeStep && bo.Op == token.GTR && !v {
-			return true, ""
+		// size budget (tree read only): an ordering comparison between two int64 sizes, either spelling
+		if isTreeStep {
+			switch bo.Op {
+			case token.GTR, token.LSS, token.GEQ, token.LEQ:
+				if bo.X.Type().Underlying().String() == "int64" && bo.Y.Type().Underlying().String() == "int64" {
+					return true, ""
+				}
+			}
 		}
 		return false, "a comparison (" + bo.Op.String() + ") at " + c.Pos(bo.Pos())
 	}
